@@ -319,7 +319,21 @@ pub mod iter {
     impl<I: Iterator> ParallelBridge for I {
         type Item = I::Item;
         fn par_bridge(self) -> Par<I::Item> {
-            Par::new(self.collect())
+            // rayon hands the items of a bridged iterator to whichever worker asks next and keeps NO
+            // order: downstream `collect()` sees them in pick-up order.  Modelled by delivering the
+            // blocks of the item sequence in a scheduler-chosen order (default: the original order).
+            let items: Vec<I::Item> = self.collect();
+            let parts = sched::partition(items.len(), 1);
+            let order = sched::permutation(parts.len());
+            let mut slots: Vec<Option<I::Item>> = items.into_iter().map(Some).collect();
+            let mut out = Vec::with_capacity(slots.len());
+            for b in order {
+                let (lo, hi) = parts[b];
+                for i in lo..hi {
+                    out.push(slots[i].take().unwrap());
+                }
+            }
+            Par::new(out)
         }
     }
 
